@@ -252,6 +252,9 @@ fn fixed_families(g: &mut Gen) {
         ("foo:psh".into(), "push v_2 | addone | pop v_1".into()),
         ("foo:stk".into(), "stack push=1,2 | addone | stack pop=2,1".into()),
         ("foo:swp".into(), "stack swap | addone".into()),
+        ("m:pipe".into(), "addone | helmert x=3".into()),
+        ("m:outer".into(), "m:pipe inv | helmert y=1".into()),
+        ("m:omits".into(), "helmert x=3 omit_fwd | helmert y=1 omit_inv".into()),
     ];
     let geo = "3f c0000000000000".replace(' ', "");
     let _ = geo;
@@ -274,8 +277,27 @@ fn fixed_families(g: &mut Gen) {
         ("addone | foo:stk", vec!["addone", "stack push=1,2 | addone | stack pop=2,1"]),
         ("foo:swp | addone", vec!["stack swap | addone", "addone"]),
     ];
-    for (inv, seq) in cases {
+    let mut cases: Vec<(&str, Vec<&str>, Vec<&str>)> = cases.into_iter().map(|(i, s)| (i, s.clone(), s)).collect();
+    // an omission on an invocation concerns the invocation as a whole, in the pipeline it is a step of: it is not
+    // handed down to the steps of the macro's body (nor to macros nested in it), whatever the direction and
+    // whether or not the invocation is inverted as well; outside a pipeline there is nothing to omit it from
+    cases.extend(vec![
+        ("addone | m:pipe omit_fwd", vec!["addone"], vec!["addone", "addone | helmert x=3"]),
+        ("addone | m:pipe omit_inv", vec!["addone", "addone | helmert x=3"], vec!["addone"]),
+        ("addone | m:pipe inv omit_fwd", vec!["addone"], vec!["addone", "helmert x=3 inv | addone inv"]),
+        ("addone | omit_inv m:pipe inv", vec!["addone", "helmert x=3 inv | addone inv"], vec!["addone"]),
+        ("addone | m:outer omit_fwd", vec!["addone"], vec!["addone", "helmert x=3 inv | addone inv | helmert y=1"]),
+        ("addone | m:outer inv omit_inv | helmert z=1", vec!["addone", "helmert y=1 inv | addone | helmert x=3", "helmert z=1"], vec!["addone", "helmert z=1"]),
+        ("m:pipe omit_fwd", vec!["addone | helmert x=3"], vec!["addone | helmert x=3"]),
+        ("m:outer omit_inv", vec!["helmert x=3 inv | addone inv | helmert y=1"], vec!["helmert x=3 inv | addone inv | helmert y=1"]),
+        ("m:pipe inv omit_fwd", vec!["helmert x=3 inv | addone inv"], vec!["helmert x=3 inv | addone inv"]),
+        ("addone | m:omits", vec!["addone", "helmert y=1"], vec!["addone", "helmert x=3"]),
+        ("addone | m:omits inv", vec!["addone", "helmert x=3 inv"], vec!["addone", "helmert y=1 inv"]),
+        ("addone | m:omits omit_fwd | helmert z=1", vec!["addone", "helmert z=1"], vec!["addone", "helmert x=3", "helmert z=1"]),
+    ]);
+    for (inv, seq_f, seq_i) in cases {
         for dir in ["F", "I"] {
+            let seq = if dir == "F" { &seq_f } else { &seq_i };
             let mut f = vec!["S_C04F".to_string(), res.len().to_string()];
             for (n, b) in &res {
                 f.push(crate::wire::escape(n));
@@ -284,7 +306,7 @@ fn fixed_families(g: &mut Gen) {
             f.push(crate::wire::escape(inv));
             f.push(dir.to_string());
             f.push(seq.len().to_string());
-            for sdef in &seq {
+            for sdef in seq.iter() {
                 f.push(crate::wire::escape(sdef));
             }
             f.push(pts.clone());
@@ -296,6 +318,8 @@ fn fixed_families(g: &mut Gen) {
 
 pub fn generate(g: &mut Gen, thorough: bool) {
     fixed_families(g);
+    // macros kept in register files: the body found is that of the name asked for, not of a name beginning alike
+    super::c18::register_cases(g, if thorough { 1500 } else { 200 });
     // two fixed cases: an argument referring to a name the invocation itself rebinds
     {
         let res = vec![
